@@ -146,7 +146,11 @@ EvPredEnd == /\ Is("qe") /\ proc.on /\ proc.cur # 0
                                 /\ proc' = [proc EXCEPT !.cur = 0, !.any = TRUE]
                 ELSE UNCHANGED <<exp, pending, lst, kind>> /\ proc' = [proc EXCEPT !.cur = 0]
              /\ UNCHANGED ncb
+\* a processIf call that reports "nothing dispatched" has asked its predicate about every pending event of every prototype the predicate is
+\* callable with (the call may stop early only after a pass that dispatched something): otherwise an acceptable event could stay queued for ever
+Unasked == {i \in 1..Len(pending) : pending[i].p \in Callable[proc.shape] /\ pending[i].uid \notin proc.seen /\ pending[i].uid \in proc.taken}
 EvProcessEnd == /\ Is("pe") /\ proc.on /\ proc.cur = 0 /\ exp = <<>> /\ ~proc.thrown /\ E.a = proc.mode /\ E.r = (IF proc.any THEN 1 ELSE 0)
+                /\ (proc.mode = 3 /\ ~proc.any => Unasked = {})
                 /\ proc' = NoProc /\ UNCHANGED <<lst, kind, pending, exp, ncb>> /\ Ledger
 EvReset == /\ Is("rs") /\ Idle /\ E.lv = 0 /\ E.pv = 0
            /\ flt' = [p \in Protos |-> <<>>] /\ fkd' = <<>> /\ lst' = [p \in Protos |-> <<>>] /\ kind' = <<>> /\ pending' = <<>> /\ exp' = <<>> /\ proc' = NoProc /\ ncb' = 0
